@@ -715,7 +715,7 @@ fn logit_event(run: i64, c: &LogitCase, o: Option<Result<Result<LogitOut, String
 }
 
 
-/// Two fixed training sets on which the unchanged library is known to misbehave (see
+/// Fixed training sets on which the unchanged library is known to misbehave (see
 /// known_findings/C09.json); they are fitted first in every run so that the findings are
 /// reported (or seen to be repaired) independently of the seed.
 fn fixed_cases() -> Vec<LogitCase> {
@@ -724,6 +724,12 @@ fn fixed_cases() -> Vec<LogitCase> {
     v.push(fixed_case(1, &[-2, 2], &[0, 0, 1, 1, 1, 1, 1, 0, 1, 0, 0, 1, 1, 0, 1, 1, 1, 1, 1, 1, 0, 0, 1, 1, 0, 0, 0, 0, 1, 0, 1, 1, 1, 0, 0, 1, 0, 1, 0, 0, 1, 1, 1, 1, 1, 1, 1, 0, 1, 0, 0, 1, 1, 0, 0, 1, 1, 1, 0, 1, 0, 1, 1, 1, 1, 1, 1, 0], &[309, 358, -1979, -2304, -2351, -2067, -1733, -53, -2399, 620, 427, -2011, -1981, 844, -1671, -1801, -1892, -2271, -2101, -1846, 247, 842, -2469, -1989, 833, 1031, 115, 381, -2398, 300, -2587, -1670, -1906, 570, 823, -1992, 549, -1834, 526, 80, -2200, -1920, -2339, -2151, -2246, -2088, -1790, 305, -1572, 729, 836, -2217, -1658, 440, 612, -1963, -2217, -2024, 539, -1592, 828, -1859, -1837, -1762, -1553, -2131, -2286, 61], 0, "separable"));
     // alpha = 1/64, four classes, two features of magnitude ~200: 1000 iterations are not enough
     v.push(fixed_case(4, &[-3, 0, 7, 20], &[3, 2, 3, 2, 3, 3, 1, 1, 0, 1, 0, 2, 0, 1], &[-3182, 7, -3164, 2, -3863, 12, -2991, -12, -2334, -7, -1168, -18, -727, 11, -2170, -25, -2100, 25, -2795, 13, -3329, 9, -2100, -11, -1635, 8, -2899, 2, -3167, -1, -4000, -13, -2137, 5, -4000, -15, 1287, 2, -3132, -13, -4000, 18, -4000, 6, 305, 0, -4000, -3, -1911, 22, -4000, -12, 1864, 2, -2875, 15], 1, "overlap"));
+    // alpha = 0, separable, three features: the objective underflows to exactly 0 and the line search panics
+    v.push(fixed_case(3, &[-2, 6], &[0, 0, 0, 1, 1, 1, 1, 0, 1, 1, 1, 1, 0, 1, 0, 0, 1, 1, 1, 0, 1, 1, 0, 1, 0, 0, 1, 1, 0, 0, 0, 0, 0, 1, 0, 1, 0, 1, 1, 1, 0, 1, 1, 0, 0, 1, 1, 0, 1, 0, 1, 0, 0, 0, 1, 1, 0, 1, 0, 0, 1, 1, 1, 1, 1, 0, 0, 0, 0, 0, 1, 0, 0, 0, 0, 0, 1, 1, 1, 0, 1, 0, 0, 1, 0, 0, 0, 1, 0, 1, 0, 0, 0], &[-16, -1381, -568, -12, -1730, -501, -16, -2039, -221, 7, 1008, -389, 7, 856, -272, 8, 500, -243, 11, -127, -540, -10, -2330, -237, 9, 558, -327, 10, 882, -291, 6, 275, -486, 8, 719, -151, -12, -1311, -413, 13, 379, -300, -16, -1380, -277, -15, -1785, -201, 12, 261, 67, 13, 578, -166, 7, 557, -560, -16, -1651, -274, 9, 359, -42, 11, 949, -210, -17, -1432, -9, 5, 721, -668, -14, -1386, 85, -12, -1668, 20, 9, 428, -435, 8, 898, -548, -14, -1543, -136, -16, -1778, -876, -17, -1296, -192, -13, -1701, -262, -12, -2241, -498, 11, 476, -510, -17, -1601, 103, 9, 1072, 0, -15, -1970, -60, 9, 292, -586, 11, 577, -550, 11, 205, 194, -18, -1558, 138, 7, 451, -69, 12, 681, -556, -14, -1517, -586, -17, -2084, -313, 12, 133, -575, 9, 87, 66, -19, -2045, -48, 10, 168, -266, -16, -1511, 4, 8, 683, -442, -13, -1865, -264, -14, -1942, -620, -16, -1844, -412, 5, 359, -414, 14, 698, -648, -15, -2133, -799, 9, 629, -55, -13, -1427, -295, -17, -1799, -576, 9, 881, -540, 12, 815, -472, 7, 499, -51, 11, 496, -296, 12, 456, -315, -15, -1504, -466, -14, -2052, -206, -16, -1777, -405, -15, -1157, 538, -16, -1668, -222, 12, 311, -196, -11, -1648, -691, -15, -1705, -203, -17, -1785, -290, -12, -1455, 146, -15, -1630, -314, 11, 764, -139, 10, 809, -535, 12, 493, -537, -21, -1649, -161, 9, 517, -591, -19, -2280, -220, -15, -1433, -90, 15, 419, -380, -14, -1815, -624, -14, -1786, -440, -14, -1562, 22, 11, 521, -276, -18, -1790, -496, 8, 669, 355, -17, -1569, -82, -16, -1472, -176, -16, -1581, 10], 0, "separable"));
+    // alpha = 1/4, four classes, raw integer features up to 3029: still 9% of the starting gradient after 1000 iterations
+    let mut big = fixed_case(4, &[0, 2, 200, 2001], &[2, 2, 3, 1, 0, 3, 1, 3, 0, 3, 3, 3, 3, 3, 0, 2, 2, 3, 3, 3, 1, 2, 2, 2, 2, 0, 1, 1, 2, 3, 2, 0, 2, 1, 3, 2, 3, 1, 0, 3, 3, 3, 1, 1, 0, 0, 2, 0, 1, 2, 0, 3, 3, 1, 2, 1, 1, 3, 0, 2, 0, 2, 2, 3, 2, 3, 1, 3, 1, 1, 2, 0, 1, 2, 1, 2, 1, 1, 0, 2, 0, 0, 1, 0, 3, 3, 0, 3, 0, 1, 3, 1, 0, 0], &[2914, 294, 321, -2577, 2861, 308, 322, -2701, 2797, 335, 327, -2642, 2912, 280, 317, -2682, 2829, 286, 321, -2611, 2761, 278, 299, -2547, 2629, 280, 306, -2824, 2754, 323, 324, -2609, 2836, 316, 335, -2446, 2886, 307, 300, -2657, 2825, 306, 337, -2691, 2896, 310, 340, -2587, 2784, 323, 298, -2589, 2649, 312, 308, -2778, 2877, 309, 328, -2539, 2773, 316, 312, -2668, 2822, 312, 323, -2639, 2779, 312, 297, -2591, 2712, 342, 329, -2609, 2891, 291, 317, -2555, 2806, 303, 315, -2655, 2600, 319, 288, -2559, 2769, 301, 340, -2675, 2588, 287, 327, -2648, 2887, 288, 309, -2669, 2867, 319, 315, -2355, 2951, 286, 314, -2673, 2687, 290, 304, -2758, 2605, 292, 310, -2695, 2827, 322, 301, -2762, 2678, 315, 328, -2569, 2752, 273, 329, -2664, 2668, 299, 291, -2639, 2904, 323, 339, -2495, 2754, 328, 323, -2642, 2849, 274, 339, -2610, 2959, 312, 344, -2611, 2853, 284, 326, -2650, 2914, 289, 345, -2712, 2813, 326, 331, -2562, 2771, 291, 317, -2513, 2758, 326, 328, -2517, 2744, 297, 308, -2760, 2827, 284, 336, -2883, 2784, 290, 299, -2663, 2903, 292, 309, -2775, 2937, 319, 297, -2579, 2689, 302, 312, -2544, 2753, 299, 319, -2605, 2817, 321, 346, -2647, 2727, 292, 306, -2538, 2895, 304, 321, -2785, 3020, 317, 331, -2615, 2738, 310, 308, -2828, 2702, 295, 311, -2755, 2838, 315, 318, -2658, 2854, 283, 324, -2628, 2690, 320, 316, -2723, 2870, 281, 314, -2688, 2572, 298, 342, -2538, 2966, 312, 309, -2619, 2813, 294, 302, -2636, 2655, 313, 323, -2671, 2891, 291, 303, -2720, 2786, 271, 309, -2728, 2694, 310, 326, -2491, 2728, 321, 310, -2641, 2864, 303, 327, -2739, 2843, 304, 309, -2668, 2759, 291, 319, -2699, 2855, 296, 330, -2499, 2907, 329, 333, -2677, 2787, 320, 314, -2879, 2748, 272, 318, -2522, 2741, 317, 299, -2726, 2823, 295, 336, -2585, 2828, 307, 311, -2619, 2690, 323, 314, -2645, 2708, 301, 321, -2783, 2577, 275, 319, -2640, 2721, 322, 305, -2616, 2859, 273, 310, -2607, 2618, 292, 317, -2558, 2746, 289, 326, -2813, 2790, 321, 341, -2623, 2760, 309, 313, -2796, 2824, 271, 315, -2543, 2801, 332, 321, -2528, 2809, 308, 298, -2839, 2821, 286, 326, -2659, 2984, 344, 325, -2858, 2908, 285, 295, -2788, 2876, 316, 323, -2708, 3029, 293, 354, -2651], 16, "large-overlap");
+    big.xs = 0;
+    v.push(big);
     v
 }
 
